@@ -65,6 +65,11 @@ func (c Config) Options() *opt.Options {
 	case "rot":
 		o = flushy()
 		o.MaxManifestFileSize = 1
+	case "throttle":
+		// writers are slowed down at one level-0 table and wait for the table compaction at two
+		o = flushy()
+		o.WriteL0SlowdownTrigger = 1
+		o.WriteL0PauseTrigger = 2
 	case "bigbatch":
 		o = flushy()
 		o.WriteBuffer = 40
